@@ -40,6 +40,8 @@ pub enum Pattern {
     ConnectStall,
     /// client role, keep-alive k, idle: PINGREQ expected on the wire
     ClientIdle(u16),
+    /// the same with the send window (1) taken by a QoS 1 publish the peer does not acknowledge
+    ClientIdleWindowFull(u16),
 }
 
 #[derive(Clone, Copy, Debug, PartialEq, Eq, Hash, Serialize, Deserialize)]
@@ -113,9 +115,13 @@ async fn run_conn(c: Case) -> Verdict {
         cfg.v3.connect_timeout = 1;
         cfg.v5.connect_timeout = 1;
     }
-    if let Pattern::ClientIdle(k) = c.pattern {
+    if let Pattern::ClientIdle(k) | Pattern::ClientIdleWindowFull(k) = c.pattern {
         cfg.v3.connect.keep_alive = k;
         cfg.v5.connect.keep_alive = k;
+        if matches!(c.pattern, Pattern::ClientIdleWindowFull(_)) {
+            cfg.v3.max_send = 1;
+            cfg.v5.connack.receive_max = Some(1);
+        }
     }
     let eut = Eut::start(c.role, &cfg).await;
     let t0 = Instant::now();
@@ -299,7 +305,16 @@ async fn run_conn(c: Case) -> Verdict {
                 }
             }
         }
-        Pattern::ClientIdle(k) => {
+        Pattern::ClientIdle(k) | Pattern::ClientIdleWindowFull(k) => {
+            let mut held = None;
+            if matches!(c.pattern, Pattern::ClientIdleWindowFull(_)) {
+                // the only slot of the send window stays taken: the peer never acknowledges this publish
+                let mut f = eut.send(crate::bed::v5::SendSpec { kind: crate::bed::v5::SendKind::Qos1, topic: "s/0".into(), payload: vec![1], pid: None, user_prop: None });
+                let waker = crate::props::c16::futures_noop_waker();
+                let mut cx = std::task::Context::from_waker(&waker);
+                let _ = f.as_mut().poll(&mut cx);
+                held = Some(f);
+            }
             // at least one PINGREQ in every window of k + 1.2 s while idle and open; observe 3 windows
             let window = Duration::from_secs(u64::from(k)) + Duration::from_millis(1200);
             let mut last_ping = Duration::ZERO;
@@ -332,7 +347,8 @@ async fn run_conn(c: Case) -> Verdict {
             if max_slip > slip_limit {
                 return Verdict::Inconclusive(format!("driver slipped {max_slip:?}"));
             }
-            Verdict::Ok(CaseInfo::nontrivial(&c).label("client-keep-alive"))
+            drop(held);
+            Verdict::Ok(CaseInfo::nontrivial(&c).label(if matches!(c.pattern, Pattern::ClientIdleWindowFull(_)) { "client-keep-alive-window-full" } else { "client-keep-alive" }))
         }
         Pattern::ConnectStall => unreachable!(),
     }
@@ -374,6 +390,7 @@ pub fn all_cases(thorough: bool) -> Vec<Case> {
     for role in [Role::V3Client, Role::V5Client] {
         for k in [1u16, 2] {
             out.push(Case { role, source: Source::Client(k), pattern: Pattern::ClientIdle(k) });
+            out.push(Case { role, source: Source::Client(k), pattern: Pattern::ClientIdleWindowFull(k) });
         }
     }
     out
@@ -467,7 +484,7 @@ pub fn run(ctx: &Ctx, started: Instant) -> i32 {
             "{total} connections in real time (several repetitions at staggered phases of the 1 s timer wheel), all concurrent: keep-alive source {{client value 1/2 (thorough 3) s -> idle period k + k/2; handshake override idle_timeout / keep_alive 1/2 (3) s; v3 idle_timeout(0) = disabled}} x \
              {{dead peer: 0..2 complete packets 0.5 s or T-0.5 s apart, then silence -> ended within [T-0.6 s, T+2.2 s] after the last complete packet with a keep-alive timeout (v5: DISCONNECT 0x8D); live peer: a complete packet every 0.5 s or T-1.0 s for three periods, whole or in two writes 0.2 s apart -> never ended}}; \
              frame read rate 1 s / 16 bytes / max 4 s: partial frame then stall and 8 bytes/s trickle -> read timeout, 80 bytes/s -> frame handled, no timeout; half a CONNECT against connect timeout 1 s -> dropped within 3.5 s, no handshake; disabled keep-alive -> still open after 4.5 s; \
-             client role keep-alive 1/2 s idle -> a PINGREQ in every window of k+1.2 s. A case whose driver woke up more than 0.3 s late is run again with fewer connections at once (up to three more rounds; {inconclusive} left without a verdict this run). Non-trivial = every pattern (each has a decisive gap or partial frame); distinct = (role, source, pattern)"
+             client role keep-alive 1/2 s idle (also with the send window of 1 taken by an unacknowledged publish) -> a PINGREQ in every window of k+1.2 s. A case whose driver woke up more than 0.3 s late is run again with fewer connections at once (up to three more rounds; {inconclusive} left without a verdict this run). Non-trivial = every pattern (each has a decisive gap or partial frame); distinct = (role, source, pattern)"
         ),
         exhaustive: false,
         assumptions: vec![
